@@ -6,6 +6,15 @@ package main
 // is fed to a real server inside a child process (a panic in a server goroutine kills the process; the parent maps the
 // crash to the case) while the responses are drained continuously. Transport, in-memory backend and tree snapshot
 // are shared with c11.go.
+//
+// Feeding: every leading packet of the mutated stream that frames and decodes is sent on its own and answered before
+// the next one (READ/WRITE packets are served by parallel workers and may overtake a preceding OPEN, so a stream sent
+// in one go has no single correct response sequence); everything from the first malformed byte on is sent in one
+// write, then the client->server direction is closed.
+//
+// Diagnostics (not part of the checked runs): `vh ... c07 burst` sends every stream in one write and applies only the
+// crash/hang/leak oracles (verdicts then depend on scheduling); env C07_ONLY=os|req restricts the servers, C07_DUMP=1
+// adds the crash dump of every lost child as a diag line.
 
 import (
 	"bufio"
@@ -1015,7 +1024,7 @@ func runC07(c *Ctx) {
 		"posix-rename, hardlink, unknown extended requests; 20-26 frames each) against a temp dir (os server) and an own in-memory backend (request server), allocator off and on; mutations: EOF at every byte offset (mut=cut val=0), " +
 		"every frame truncated at every offset with its length field adjusted and the rest of the stream following (mut=cut val=1), every 4-byte window of every frame <- 0,1,n-1,n+1,2^31-1,2^32-1 (mut=len), " +
 		"every type byte replaced (mut=type; quick: 18 values), garbage appended (mut=garbage); frames longer than 160 (thorough 1200) bytes are sampled (first 48, last 12, every 61st offset). " +
-		"Each stream is served in a child process; oracle: no crash, Serve returns in 10s, responses are a prefix of the reference responses to the identical leading frames, backend equals the state after those frames, " +
+		"Each stream is served in a child process: the leading packets that frame and decode are sent one at a time, each answered before the next, the rest in one write, then EOF; oracle: no crash, Serve returns in 10s, responses are a prefix of the reference responses to the identical leading frames, backend equals the state after those frames, " +
 		"no goroutine, descriptor or handler object left. Mutants whose first changed frame still decodes are different valid requests: only the crash/hang/leak oracles apply to them (stat class_valid). " +
 		"non-trivial = the first thing that differs from the valid session is malformed (does not frame or does not decode)")
 	root, err := os.MkdirTemp("", "vh-c07-")
